@@ -6,6 +6,7 @@ import Rtp.Model.AV1DepackIdx
 import Rtp.Proofs.Obu
 namespace Rtp.Model.AV1
 open Rtp Rtp.Model
+open Rtp.Model.ObuLemmas
 
 theorem readLebGoLoop_bounds (l : Bytes) (acc : UInt64) (i : Nat) (v : UInt64) (k : Nat)
     (h : readLebGoLoop l acc i = some (v, k)) : i + 1 ≤ k ∧ k ≤ i + l.length := by
